@@ -34,13 +34,20 @@ def main():
     ap.add_argument("--algos", default=None, help="comma separated: restrict a run-level check (debugging aid)")
     ap.add_argument("--envs", default=None)
     args = ap.parse_args()
+    # The checks verify /repo's current working tree.  VOPY_VERIF_REPO points them at a scratch
+    # worktree instead; it is used only by the mutation / seeded-change tooling (tools/), never by
+    # the commands registered in MANIFEST.json.
+    want = os.path.realpath(os.environ.get("VOPY_VERIF_REPO", "/repo"))
+    sys.path.insert(0, want)
     core.quiet_imports()
     import vopy  # noqa: F401
 
     repo = os.path.realpath(os.path.dirname(os.path.dirname(vopy.__file__)))
-    if repo != "/repo":
-        print(f"ERROR: vopy imported from {repo}, not /repo", flush=True)
+    if repo != want:
+        print(f"ERROR: vopy imported from {repo}, not {want}", flush=True)
         sys.exit(core.ERROR)
+    if want != "/repo":
+        print(f"NOTE: checking the scratch tree {want} (VOPY_VERIF_REPO), not /repo", flush=True)
     if args.replay:
         sys.exit(replay(args.replay))
     if args.prop == "selftest":
